@@ -47,6 +47,18 @@ Theorem C14_flagging_never_fails c t l sb u g rc :
 Proof. exact (flag_ok c t l sb u g rc). Qed.
 Print Assumptions C14_flagging_never_fails.
 
+(* "stores the proof" means the OFFENDING receipt: whenever the flagging stores a proof for a tower (none was stored), the
+   proof row (tower, locator, recovered id) is there and the receipt stored for (tower, locator) is the one of the proof -
+   also when a receipt of that very appointment was already stored (a retry interrupted between storing the receipt and
+   deleting the pending row, sent again after the restart): it is replaced, so the persisted triple proves the misbehaviour.
+   Monitor 1408 checks this on the plugin's database. *)
+Theorem C14_stored_proof_is_the_offending_receipt d t l sb u g rc d' :
+  DbInv d -> exists_misbehaving_proof d t = false -> flag_store d t l sb u g rc = DbOk d' ->
+  find_pk CS d' T_misbehaving_proofs [t] = Some (proof_row t l rc) /\
+  find_pk CS d' T_appointment_receipts [l; t] = Some (receipt_row t l sb u g).
+Proof. exact (flag_store_backs_proof d t l sb u g rc d'). Qed.
+Print Assumptions C14_stored_proof_is_the_offending_receipt.
+
 (* "... and stops all further sending to it": FULL statement (fixes 70d4134, 9d6311c, d35e2bc).
    From every reachable state in which a misbehaviour proof of tower t is stored, NO operation - notification, manager
    iteration, retry attempt, registertower (which may fail to connect), retrytower, abandontower of another tower,
